@@ -134,6 +134,11 @@ CORPUS = [
     '<dtml-var f>\n<dtml-except>\ng\n</dtml-try>\n</dtml-let>\n</dtml-with>\n'
     '<dtml-else>\nh\n</dtml-in>\n<dtml-else>\ni\n</dtml-if>',
     'x < y & z > w "q" \'r\' <d <dtml <!-- &dt %(z)s',
+    # apostrophes (any number) inside double-quoted values and expressions
+    '<dtml-var a missing="don\'t know">\n<dtml-var b missing="won\'t tell">',
+    '<dtml-var a null="it\'s">tail',
+    '<dtml-if "x == \'a\'">y</dtml-if> it\'s <dtml-var b etc="\'">',
+    '<dtml-in seq sort_expr="\'k\'">a</dtml-in>\'<dtml-var "\'q\'">',
 ]
 
 EPFS_CORPUS = [
@@ -188,6 +193,8 @@ BAD = [
     ('unknown tag', 'HTML', 'a<dtml-foo x>b'),
     ('unknown tag', 'HTML', 'a\n<!--#foo x-->b'),
     ('unknown tag', 'String', 'a%(foo x)[b%(foo)]'),
+    ('unknown tag', 'HTML', '<dtml-var a missing="don\'t">b<dtml-foo x>'),
+    ('missing end', 'HTML', '<dtml-var a null="it\'s"><dtml-in x>b'),
     ('unmatched end', 'HTML', 'a</dtml-if>b'),
     ('unmatched end', 'HTML', '<dtml-if x>a</dtml-in>'),
     ('unmatched end', 'HTML', 'a\n\n<!--#/if-->b'),
